@@ -57,6 +57,11 @@ def handle : List String → String
       if k = 0 then "bad-arg" else
       "|".intercalate (replay ⟨n, k - 1, sf == "T", fx⟩ (initSt conc) 0 acts [])
     | _, _, _, _, _ => "bad-arg"
+  | ["app", specs, sd, fi] =>
+    -- specs: one letter pair per pipeline, e.g. `hn.ws.hs` (h/w = housekeeping/work, s/n = skippable/not)
+    let ps := (specs.splitOn ".").map (fun t => PipeSpec.mk (t.toList.head? == some 'w') (t.toList.getLast? == some 's'))
+    let dec := fun (t : String) => if t == "-" then none else t.toNat?
+    ".".intercalate ((appRun ps 0 false (dec sd) (dec fi)).map toString)
   | _ => "bad-op"
 
 end Wpull.Pipeline
